@@ -21,7 +21,7 @@ def S(i):
     return {"k": "s", "v": i}
 
 
-def std_tables(nb, rb, pl, pr, endless=False):
+def std_tables(nb, rb, pl, pr, endless=False):  # endless: unbounded sources (the driver caps them at nb batches)
     """l(id,k,v,s): pl partitions x nb batches x rb rows;  r(id,k,w): pr x nb x rb.  Row ids are unique,
     k = id % 5 on both sides (every key occurs on both sides, the largest key last), values small ints."""
     def mk(name, cols, nparts, base, rowf):
@@ -74,6 +74,8 @@ BINDING = {
     "semi_join": dict(sql="SELECT id, v FROM l WHERE k IN (SELECT k FROM r WHERE w > 3)", tp=1, pl=1, pr=1, ops=["HashJoinExec"]),
     "anti_join": dict(sql="SELECT id, v FROM l WHERE NOT EXISTS (SELECT 1 FROM r WHERE r.k = l.k AND r.w > l.v)", tp=1, pl=1, pr=1, ops=["HashJoinExec"]),
     "scalar_subquery": dict(sql="SELECT id, v FROM l WHERE v > (SELECT avg(w) FROM r)", tp=1, pl=1, pr=1, ops=["AggregateExec"]),
+    "analyze": dict(sql="EXPLAIN ANALYZE SELECT id, v FROM l WHERE v % 7 <> 0", tp=2, pl=2, pr=1, ops=["AnalyzeExec"], limit=True),
+    "shj": dict(sql="SELECT l.id AS a, r.id AS b FROM l JOIN r ON l.k = r.k", tp=1, pl=1, pr=1, ops=["SymmetricHashJoinExec"], endless=True),
     "limit": dict(sql="SELECT id, k FROM l LIMIT 3", tp=1, pl=1, pr=1, ops=[], limit=True),
     "limit_xchg": dict(sql="SELECT id, k FROM l LIMIT 3", tp=2, pl=2, pr=1, ops=[], limit=True),
     "sort_repart": dict(sql="SELECT id, v FROM l WHERE v % 7 <> 0 ORDER BY v, id", tp=4, pl=1, pr=1, ops=["SortExec", "RepartitionExec:RoundRobin"], ordered=True),
@@ -84,13 +86,14 @@ ALL_SHAPES = sorted(BINDING)
 SMALL_SHAPES = ["filter", "projection_udf", "sort", "topk", "agg_single", "window", "hash_join", "nlj", "limit", "coalesce_parts",
                 "repart_rr", "bounded_window", "union", "limit_xchg", "semi_join", "distinct"]
 
-INVARIANTS = "TypeOK NoTruncation FaultSurfaces FaultReached CleanFailure WithinLimit ReleasedWhenQuiescent DroppedHoldsNothing"
+INVARIANTS = "TypeOK NoTruncation FaultSurfaces FaultReached CleanFailure WithinLimit ReleasedWhenQuiescent DroppedHoldsNothing FanSurfaces FanComplete"
 
 
-def st_cfg(ctx, name, mode, shapes, nb, spec="Spec", props=True, emit=False):
+def st_cfg(ctx, name, mode, shapes, nb, spec="Spec", props=True, emit=False, mouts=(2, 3), breaks=False):
     cfg = ctx.path(name)
     with open(cfg, "w") as f:
-        f.write(f'CONSTANTS NB = {nb}  MODE = "{mode}"\n  SHAPES = {{' + ",".join(f'"{s}"' for s in shapes) + "}\n")
+        f.write(f'CONSTANTS NB = {nb}  MODE = "{mode}"  MOUTS = {{' + ",".join(str(m) for m in mouts) + f'}}  BREAKS = {"TRUE" if breaks else "FALSE"}\n')
+        f.write('  SHAPES = {' + ",".join(f'"{s}"' for s in shapes) + "}\n")
         f.write(f"SPECIFICATION {spec}\nINVARIANTS {INVARIANTS}{' Emit' if emit else ''}\n")
         if props:
             f.write("PROPERTIES Terminates DropReleases StaysReleased\n")
@@ -155,6 +158,58 @@ def stream_tree_cases(ctx, mode, nb_gen, mc_shapes, nb_mc=2, workers=4):
         st.update({"cases_enumerated": len(cases), "gen_nb": nb_gen})
         return st
     bg.join = join
+    return cases, bg
+
+
+# partial consumers: catalogue shape (root = exchange with m outputs) -> query whose root plan has several output partitions
+# (wrap = physical operators constructed on top of the planned query; tp "n" = the number of outputs)
+PBINDING = {
+    "p_repart_rr": dict(sql="SELECT id, k, v FROM l", pl=1, pr=1, tp=1, wrap="rr", must=True, ops=["RepartitionExec:RoundRobin"]),
+    "p_repart_hash": dict(sql="SELECT id, k, v FROM l", pl=2, pr=1, tp=2, wrap="hash", must=True, ops=["RepartitionExec:Hash"]),
+    "p_repart_filter": dict(sql="SELECT id, v FROM l WHERE v % 7 <> 0", pl=1, pr=1, tp=1, wrap="rr", must=True, ops=["RepartitionExec:RoundRobin", "FilterExec"]),
+    "p_agg_final": dict(sql="SELECT k, count(*) AS c, sum(v) AS sv, min(s) AS ms FROM l GROUP BY k", pl=2, pr=1, tp="n", must=True,
+                        ops=["AggregateExec:FinalPartitioned", "RepartitionExec:Hash"]),
+    "p_window_hash": dict(sql="SELECT id, k, sum(v) OVER (PARTITION BY k) AS sw FROM l", pl=2, pr=1, tp="n", must=True, ops=["WindowAggExec", "RepartitionExec:Hash"]),
+    "p_hash_join_part": dict(sql="SELECT l.id AS a, r.id AS b FROM l JOIN r ON l.k = r.k", pl=2, pr=2, tp="n", settings=HJ_PART, must=False,
+                             ops=["HashJoinExec:Partitioned", "RepartitionExec:Hash"]),
+    "p_smj": dict(sql="SELECT l.id AS a, r.id AS b FROM l JOIN r ON l.k = r.k", pl=1, pr=1, tp="n", settings=SMJ, must=False, ops=["SortMergeJoinExec", "RepartitionExec:Hash"]),
+    "p_nlj_build": dict(sql="SELECT l.id AS a, r.id AS b FROM l JOIN r ON l.v < r.w", pl=1, pr=2, tp="n", must=False, ops=["NestedLoopJoinExec"]),
+    "p_cross_build": dict(sql="SELECT l.id AS a, r.id AS b FROM l CROSS JOIN r", pl=1, pr=2, tp="n", must=False, ops=["CrossJoinExec"]),
+    "p_interleave": dict(sql="SELECT id, k, v FROM l", pl=2, pr=1, tp=2, wrap="interleave", must=True, ops=["InterleaveExec", "RepartitionExec:Hash"]),
+    "p_shared_build": dict(sql="SELECT l.id AS a, r.id AS b FROM l JOIN r ON l.k = r.k", pl=1, pr=2, tp="n", must=False,
+                           settings=[["datafusion.optimizer.repartition_joins", "false"]], ops=["HashJoinExec:CollectLeft"]),
+}
+PSHAPES = sorted(PBINDING) + ["p_local_limit"]
+
+
+def partial_cases(ctx):
+    """StreamTree partial mode: enumerate <shape, m outputs, drop set, before/after, fault> from the initial states; in the
+    background model-check one shape (fan-out to every live output, liveness) and require that the model REJECTS the
+    fan-out that stops at the first closed output (BREAKS = TRUE)."""
+    # single-input exchanges are small (a few thousand states); two-input ones have ~300k states (thorough only)
+    mcs = [["p_repart_rr", "p_repart_filter", "p_shared_build"][ctx.seed % 3]] if ctx.quick else ["p_repart_rr", "p_repart_filter", "p_repart_hash"]
+
+    def mc():
+        cfg = st_cfg(ctx, "st-partial-mc.cfg", "partial", mcs, 2, mouts=(2,))
+        r = tlc_must_pass(ctx, "proto/StreamTree", cfg=cfg, workers=4, coverage=True, deadlock=False, tag="st-partial-mc", timeout=600 if ctx.quick else 3000)
+        taken = r.action_counts()
+        never = [a for a in ["Route", "FanStep", "OutTake", "OutDrop", "FanFinish"] if a in taken and taken[a][1] == 0]
+        if never:
+            raise ToolError(f"vacuity: StreamTree partial-mode actions never taken: {never}")
+        bcfg = st_cfg(ctx, "st-partial-breaks.cfg", "partial", ["p_repart_rr"], 2, props=False, mouts=(3,), breaks=True)
+        b = tlc(ctx, "proto/StreamTree", cfg=bcfg, workers=2, deadlock=False, tag="st-partial-breaks", timeout=600)
+        if "FanSurfaces" not in b.invariant_violated:
+            sys.stderr.write(b.out[-2000:])
+            raise ToolError("the model does not reject the error fan-out that stops at the first closed output (BREAKS = TRUE)")
+        return {"mc_shapes": mcs, "states": r.distinct, "transitions": r.generated, "mc_wall_s": round(r.wall, 1), "breaks_variant_rejected": True}
+    bg = Background(mc)
+    gcfg = st_cfg(ctx, "st-partial-gen.cfg", "partial", PSHAPES, 2, spec="GenSpec", props=False, emit=True)
+    g = tlc(ctx, "proto/StreamTree", cfg=gcfg, workers=1, deadlock=False, tag="st-partial-gen", timeout=900)
+    cases = tlc_cases(g.out) if g.ok else []
+    if not cases:
+        sys.stderr.write(g.out[-3000:])
+        bg.join()
+        raise ToolError("StreamTree partial-mode case enumeration failed")
     return cases, bg
 
 
